@@ -123,6 +123,7 @@ struct Inst {
     int ps_delivered = 0, ps_invocations = 0; std::set<const void *> ps_senders; // C08 classification
     bool c17_deep = false, c17_changed = false;
     bool resumed_while_stopping = false;
+    bool tb_no_recovery = false; // a burst of 0 was asked for: no token is ever replenished (or the request was refused and nothing says what it left behind): no recovery obligation
     bool tb_refused_batch_setter = false; // a batch size / timeout setter of this module was refused with EAGAIN (no effect allowed)
     bool pill_in_progress = false; // the handler that receives what was accumulated ahead of a poison pill is running / has just run
     long ticks_seen = 0;          // tick notifications received since the tick was (re)armed
